@@ -201,7 +201,10 @@ impl Property for C14 {
     fn generate(rng: &mut Rng, _tier: Tier) -> Trace {
         let mut cfg = ProdCfg::parser_default(rng);
         cfg.max_insts = rng.range(0, 16) as usize;
-        let stream = gen_stream(rng, cfg);
+        let mut stream = gen_stream(rng, cfg);
+        if rng.chance(1, 6) {
+            crate::producer::plant_ext_inst(rng, &mut stream);
+        }
         let faults = if rng.chance(1, 2) {
             vec![]
         } else {
@@ -309,7 +312,17 @@ impl Property for C14 {
             if !matches!(v.outcome, Outcome::DontCare(_)) && delivered.len() != v.insts.len() {
                 return mk("stream-order", "count".into(), 0, format!("{} instruction callbacks for {} deliverable instructions", delivered.len(), v.insts.len()));
             }
-            if matches!(v.outcome, Outcome::Accept) && base_res.is_err() || matches!(v.outcome, Outcome::Reject(_)) && base_res.is_ok() {
+            // finalize (and Ok) only if the WHOLE binary was parsed without error: a binary with a definitely
+            // malformed instruction cannot have been parsed to the end
+            if let (Outcome::Reject(r), true) = (&v.outcome, base_res.is_ok()) {
+                return mk(
+                    "finalize-only-complete",
+                    format!("class={}", r.classes[0].name()),
+                    0,
+                    format!("the parse returned Ok and called finalize after {} instruction callbacks although instruction #{} (bytes {}..{}) is malformed ({}): the binary was not parsed to the end", delivered.len(), r.index, r.start, r.end, r.sub),
+                );
+            }
+            if matches!(v.outcome, Outcome::Accept) && base_res.is_err() {
                 // acceptance itself is C03's business; do not judge the protocol on a disputed outcome
                 cov.hit("reached.acceptance_disputed");
             }
@@ -417,7 +430,7 @@ impl Property for C14 {
             out.push(c);
         }
         let n = t.stream.insts.len();
-        for j in (0..n).rev() {
+        for j in shrink_indices(n) {
             let mut c = t.clone();
             c.stream.insts.remove(j);
             c.faults = faults::reindex_after_remove(&t.faults, j);
